@@ -48,7 +48,10 @@ elif go build ./... >"$W/build.log" 2>&1 && go test -vet=off -count=1 ./... >"$W
 fi
 for p in "$@"; do
   cp "$ROOT/evidence/$p.json" "$W/evidence.$p.json" 2>/dev/null
-  out=$(cd "$ROOT" && VERIF_REPO="$W/repo" ./verif.sh check "$p" --tier quick 2>&1); code=$?
+  # a seed marked "thorough_only" needs more than the quick tier reaches (e.g. a four-level tree):
+  # it is replayed against the thorough tier for a minute and a half
+  tier="--tier quick"; if grep -q '"thorough_only"' "$D/meta.json"; then tier="--tier thorough --seconds 90"; fi
+  out=$(cd "$ROOT" && VERIF_REPO="$W/repo" ./verif.sh check "$p" $tier 2>&1); code=$?
   cp "$W/evidence.$p.json" "$ROOT/evidence/$p.json" 2>/dev/null
   echo "check $p: exit=$code"
   echo "$out" | grep -E "^VIOLATION|signature:|KNOWN-FINDING" | cut -c1-220 | head -6
